@@ -1290,3 +1290,22 @@ package profile
 //@   loop 3
 //@     invariant -1 <= i && i < len(sample.Location) && len(sample.Location) == atiter(2, len(sample.Location)) && len(s) == atiter(2, len(s)) && same_elems(sample.Location, atiter(2, sample.Location))
 //@     invariant above: forall k int :: i < k && k < len(sample.Location) ==> !showmatch(showFromLocs, sample.Location[k])
+
+// ---- C04: Profile.Aggregate — each flag that is off erases exactly its attribute and nothing else: function names
+// (name and system name), file names, line and column numbers, addresses; without inline frames a location keeps only its
+// last (outermost) line; mapping has-flags can only be lowered; sample values are never touched (frame) ----
+//@ func Profile.Aggregate nosafety
+//@   loop 1
+//@     step flags: (m.HasFunctions <==> atiter(1, m.HasFunctions) && function) && (m.HasFilenames <==> atiter(1, m.HasFilenames) && filename) && (m.HasLineNumbers <==> atiter(1, m.HasLineNumbers) && linenumber) && (m.HasInlineFrames <==> atiter(1, m.HasInlineFrames) && inlineFrame)
+//@   loop 2
+//@     step names: f.Name == ite(function, atiter(2, f.Name), "") && f.SystemName == ite(function, atiter(2, f.SystemName), "") && f.Filename == ite(filename, atiter(2, f.Filename), "")
+//@   loop 3
+//@     step address: l.Address == ite(address, atiter(3, l.Address), 0)
+//@     step inline: len(l.Line) == ite(!inlineFrame && atiter(3, len(l.Line)) > 1, 1, atiter(3, len(l.Line)))
+//@     step outermost: !inlineFrame && atiter(3, len(l.Line)) > 1 ==> elem_addr(l.Line, 0) == elem_addr(atiter(3, l.Line), atiter(3, len(l.Line)) - 1)
+//@     step no_line_numbers: !linenumber ==> forall k int :: 0 <= k && k < len(l.Line) ==> l.Line[k].Line == 0 && l.Line[k].Column == 0
+//@     step no_columns: !columnnumber ==> forall k int :: 0 <= k && k < len(l.Line) ==> l.Line[k].Column == 0
+//@   loop 4
+//@     invariant 0 <= $i && $i <= len(l.Line) && forall k int :: 0 <= k && k < $i ==> l.Line[k].Line == 0 && l.Line[k].Column == 0
+//@   loop 5
+//@     invariant 0 <= $i && $i <= len(l.Line) && (forall k int :: 0 <= k && k < $i ==> l.Line[k].Column == 0) && (!linenumber ==> forall k int :: 0 <= k && k < len(l.Line) ==> l.Line[k].Line == 0 && l.Line[k].Column == 0)
